@@ -31,6 +31,92 @@ fn agrees(obs: &Value, out: &Value) -> bool {
     }
 }
 
+/// Feature tags of a vector (which rules of the specification it exercises),
+/// counted for the evidence file.
+fn lookup_class(p: &str, st: &Value) -> &'static str {
+    let of = |v: Option<&str>| match v {
+        None => "unset",
+        Some("") => "empty",
+        Some(_) => "nonempty",
+    };
+    match p {
+        "x" | "y" => of(if st[p]["set"].as_bool().unwrap() { st[p]["v"].as_str() } else { None }),
+        "1" | "2" => {
+            let i: usize = p.parse().unwrap();
+            of(st["pos"].as_array().unwrap().get(i - 1).and_then(|v| v.as_str()))
+        }
+        _ => "nonempty",
+    }
+}
+
+fn add_tag(tags: &mut BTreeMap<String, usize>, t: String) {
+    *tags.entry(t).or_insert(0) += 1;
+}
+
+fn feature_tags(units: &[Value], st: &Value, dq: bool, tags: &mut BTreeMap<String, usize>) {
+    let q = if dq { "dq" } else { "uq" };
+    for u in units {
+        match u["t"].as_str().unwrap() {
+            "lit" => add_tag(tags, format!("lit/{q}")),
+            "bs" => add_tag(tags, format!("bs/{q}")),
+            "sq" => add_tag(tags, "sq".to_string()),
+            "dq" => {
+                add_tag(tags, if u["u"].as_array().unwrap().is_empty() { "dq-empty".into() } else { "dq".into() });
+                feature_tags(u["u"].as_array().unwrap(), st, true, tags);
+            }
+            _ => {
+                let p = u["p"].as_str().unwrap();
+                let cls = lookup_class(p, st);
+                let npos = st["pos"].as_array().unwrap().len().min(2);
+                match u["m"].as_str().unwrap() {
+                    "none" => match p {
+                        "@" | "*" => add_tag(tags, format!("${p}/{q}/npos={npos}")),
+                        "#" | "?" => add_tag(tags, format!("${p}")),
+                        _ => add_tag(tags, format!("$par/{q}/{cls}")),
+                    },
+                    "len" => add_tag(tags, format!("len/{cls}")),
+                    "sw" => {
+                        let c = if u["colon"].as_bool().unwrap() { ":" } else { "" };
+                        add_tag(tags, format!("sw{c}{}/{q}/{cls}", u["act"].as_str().unwrap()));
+                        feature_tags(u["w"].as_array().unwrap(), st, dq, tags);
+                    }
+                    _ => {
+                        let l = if u["long"].as_bool().unwrap() { u["side"].as_str().unwrap() } else { "" };
+                        add_tag(tags, format!("trim{}{l}/{q}/{cls}", u["side"].as_str().unwrap()));
+                        feature_tags(u["w"].as_array().unwrap(), st, false, tags);
+                    }
+                }
+            }
+        }
+    }
+}
+
+fn outcome_tags(st: &Value, outs: &[Value], tags: &mut BTreeMap<String, usize>) {
+    let mut add = |t: String| *tags.entry(t).or_insert(0) += 1;
+    let o = &outs[0];
+    if outs.len() > 1 {
+        add("out/two-allowed".into());
+    }
+    match o["k"].as_str().unwrap() {
+        "ok" => {
+            let n = o["f"].as_array().unwrap().len();
+            add(format!("out/fields={}", if n > 2 { ">2".to_string() } else { n.to_string() }));
+            if o["f"].as_array().unwrap().iter().any(|f| f == "") {
+                add("out/has-empty-field".into());
+            }
+            if o["x"] != st["x"] || o["y"] != st["y"] {
+                add("out/assigned".into());
+            }
+        }
+        k => add(format!("out/err-{k}")),
+    }
+    if st["nounset"].as_bool().unwrap() {
+        add("state/nounset".into());
+    }
+    let ifs = &st["ifs"];
+    add(format!("state/ifs={}", if ifs["set"].as_bool().unwrap() { format!("{:?}", ifs["v"].as_str().unwrap()) } else { "unset".into() }));
+}
+
 struct Summary {
     cases: usize,
     ok: usize,
@@ -40,6 +126,7 @@ struct Summary {
     fields: usize,
     mismatches: usize,
     samples: Vec<Value>,
+    tags: BTreeMap<String, usize>,
 }
 
 fn write_lines(args: &[String], lines: Vec<String>) {
@@ -86,7 +173,7 @@ fn replay(args: &[String]) -> i32 {
     }
     let next = AtomicUsize::new(0);
     let out: Mutex<Vec<String>> = Mutex::new(vec![]);
-    let sum = Mutex::new(Summary { cases: 0, ok: 0, errors: 0, skipped, ambiguous: 0, fields: 0, mismatches: 0, samples: vec![] });
+    let sum = Mutex::new(Summary { cases: 0, ok: 0, errors: 0, skipped, ambiguous: 0, fields: 0, mismatches: 0, samples: vec![], tags: BTreeMap::new() });
     let failed: Mutex<Option<String>> = Mutex::new(None);
     std::thread::scope(|s| {
         for _ in 0..threads(args) {
@@ -121,8 +208,11 @@ fn replay(args: &[String]) -> i32 {
                     let mut local = vec![];
                     let (mut ok, mut errs, mut amb, mut fields) = (0, 0, 0, 0);
                     let mut sample = None;
+                    let mut tags = BTreeMap::new();
                     for (c, o) in cases.iter().zip(obs_all.iter()) {
                         let outs = c.1.as_array().unwrap();
+                        feature_tags(&c.0, st, false, &mut tags);
+                        outcome_tags(st, outs, &mut tags);
                         if outs.len() > 1 {
                             amb += 1;
                         }
@@ -145,6 +235,9 @@ fn replay(args: &[String]) -> i32 {
                     s.ambiguous += amb;
                     s.fields += fields;
                     s.mismatches += local.len();
+                    for (k, v) in tags {
+                        *s.tags.entry(k).or_insert(0) += v;
+                    }
                     if let Some(x) = sample {
                         if s.samples.len() < 6 {
                             s.samples.push(x);
@@ -170,7 +263,7 @@ fn replay(args: &[String]) -> i32 {
     println!(
         "{}",
         json!({"cases": s.cases, "ok": s.ok, "errors": s.errors, "skipped": s.skipped, "ambiguous": s.ambiguous,
-               "fields": s.fields, "mismatches": s.mismatches, "samples": s.samples, "runs": jobs.len()})
+               "fields": s.fields, "mismatches": s.mismatches, "samples": s.samples, "runs": jobs.len(), "features": s.tags})
     );
     0
 }
